@@ -13,6 +13,12 @@ def run(ctx):
     built = T.prepare(ctx, PROPS)
     ng, nc = T.sizes(ctx)
     worlds = T.generate(ctx, ng, nc, force={"enforce": True})
+    seen = {T.world_key(w) for w in worlds}
+    for k in range(30 if ctx.tier == "quick" else 200):      # runs of adjacent hopeless tasks, both back-ends (2 of 3 CPLEX)
+        w = T.hopeless_run_world(ctx.rng, "gurobi" if k % 3 == 0 else "cplex")
+        if T.world_key(w) not in seen:
+            seen.add(T.world_key(w))
+            worlds.append(w)
     results = T.run_worlds(worlds, probe=T.probe_spec(ctx, ["c12"]))
     ctx.rules.append("adversarial probes: the live model is re-optimised to maximise the lateness (start + runtime - deadline) of one "
                      "placed task; every assignment found goes through the deadline monitor")
@@ -20,7 +26,8 @@ def run(ctx):
         "worlds as in C10_tetri with enforce_deadlines on: deadlines past (now-2), exactly tight (now + runtime of one "
         "strategy), loose; 1-2 strategies so that only the faster one may meet the deadline; both back-ends; distinct = "
         "distinct world JSON; non-trivial = some offered task is hopeless or has a strategy/slot pair excluded by its deadline "
-        "while another task or strategy is placed")
+        "while another task or strategy is placed; plus worlds with runs of 2-3 ADJACENT hopeless released tasks next to healthy "
+        "ones, where every hopeless task must be answered with CANCEL_TASK by the CPLEX back end (left unplaced by Gurobi)")
 
     def nontrivial(w, r):
         inst = r["inst"]
